@@ -9,6 +9,7 @@ import (
 	"bytes"
 	"crypto"
 	"fmt"
+	"math/big"
 
 	"github.com/oasisprotocol/curve25519-voi/curve"
 	"github.com/oasisprotocol/curve25519-voi/primitives/ed25519"
@@ -179,7 +180,48 @@ func history(r *mon.Run, c Case) {
 			fail(fmt.Sprintf("batch/VerifyBatchOnly/want=%v", wantOnly), fmt.Sprintf("%d entries (%d cofactorless): got %v", len(model), nCof, only))
 		}
 	}
+	sharedOpts := &ed25519.Options{}
+	// cancelling forgeries: k individually invalid entries (R_i, S_i + d_i) with d_1 + ... + d_k = 0 (mod L) built from
+	// valid signatures without any secret. A sound batch equation weights every entry with its own unpredictable
+	// coefficient and rejects them; one whose coefficients coincide (or repeat with a period) accepts the set.
+	addCancelling := func() {
+		k := 2 + rng.IntN(2)
+		deltas := make([]*big.Int, k)
+		sum := new(big.Int)
+		for i := 0; i < k-1; i++ {
+			deltas[i] = big.NewInt(int64(1 + rng.IntN(1000)))
+			if rng.IntN(2) == 0 {
+				deltas[i].Neg(deltas[i])
+			}
+			sum.Add(sum, deltas[i])
+		}
+		deltas[k-1] = new(big.Int).Neg(sum)
+		for i := 0; i < k; i++ {
+			if deltas[i].Sign() == 0 {
+				deltas[i].SetInt64(1)
+				deltas[0].Sub(deltas[0], big.NewInt(1))
+			}
+		}
+		for i := 0; i < k; i++ {
+			it := pool[validPool[rng.IntN(len(validPool))]]
+			sv := ref.FromLE(it.sig[32:])
+			sv.Add(sv, deltas[i])
+			sv.Mod(sv, ref.L)
+			fsig := append(append([]byte{}, it.sig[:32]...), ref.LE32(sv)...)
+			o := optsFor(it.c, 2)
+			bit, _ := single(it.pk, it.msg, fsig, o)
+			bv.AddWithOptions(it.pk, it.msg, fsig, o)
+			r.Eval(fsig)
+			r.Hist("entry/cancelling-forgery")
+			step(fmt.Sprintf("Add(cancelling forgery %d of %d, delta %v, single=%v)", i+1, k, deltas[i], bit))
+			model = append(model, modelEntry{bit: bit})
+		}
+	}
 	add := func(mode string) {
+		if mode != "valid" && len(validPool) > 0 && rng.IntN(10) == 0 {
+			addCancelling()
+			return
+		}
 		var it item
 		fl := 2 // default options
 		switch mode {
@@ -230,19 +272,26 @@ func history(r *mon.Run, c Case) {
 		}
 		cpk, cmsg, csig := ed25519.PublicKey(clone(pk)), clone(msg), clone(sig)
 		co := *o
+		pco := &co
+		reuse := rng.IntN(2) == 0
+		if reuse {
+			// ... or the caller keeps ONE option struct for the whole history and rewrites its fields before each Add
+			*sharedOpts = *o
+			pco = sharedOpts
+		}
 		if expanded {
 			bit, pan = singleExpanded(exp, msg, sig, o)
 			if useDefault {
 				bv.AddExpanded(exp, cmsg, csig)
 			} else {
-				bv.AddExpandedWithOptions(exp, cmsg, csig, &co)
+				bv.AddExpandedWithOptions(exp, cmsg, csig, pco)
 			}
 		} else {
 			bit, pan = single(pk, msg, sig, o)
 			if useDefault {
 				bv.Add(cpk, cmsg, csig)
 			} else {
-				bv.AddWithOptions(cpk, cmsg, csig, &co)
+				bv.AddWithOptions(cpk, cmsg, csig, pco)
 			}
 		}
 		for _, b := range [][]byte{cpk, cmsg} {
@@ -255,7 +304,9 @@ func history(r *mon.Run, c Case) {
 				csig[i] ^= 0xff
 			}
 		}
-		co.Context, co.Hash, co.Verify = "overwritten after Add", crypto.SHA512, ed25519.VerifyOptionsStdLib
+		if !reuse {
+			co.Context, co.Hash, co.Verify = "overwritten after Add", crypto.SHA512, ed25519.VerifyOptionsStdLib
+		}
 		r.Eval(it.c.Key())
 		r.Hist(fmt.Sprintf("entry/%s/bit=%v/expanded=%v", famClass(it.c.Fam, malformed), bit, expanded))
 		step(fmt.Sprintf("Add(expanded=%v fam=%s flags=%02d malformed=%q single=%v single-panics=%v)", expanded, it.c.Fam, fl, malformed, bit, pan))
@@ -470,12 +521,82 @@ func entropyCase(r *mon.Run, c Case) {
 	entropy.Check(r, "C09", r.Rng(c.Stream), func(sig, what string) { r.Violate(sig, what, c) })
 }
 
+// sweep: every pool entry under every one of the 32 option sets, through every alternative path, compared with plain
+// verification: expanded key, caching verifier (miss, then hit), batch of two (with Add and with AddExpanded, next to
+// a valid entry). The PRNG programs reach these combinations only by chance; the sweep reaches all of them always.
+func sweep(r *mon.Run, c Case) {
+	it := pool[c.Size]
+	var other *item
+	if len(validPool) > 0 {
+		other = &pool[validPool[c.Size%len(validPool)]]
+	}
+	for fl := 0; fl < 32; fl++ {
+		o := optsFor(it.c, fl)
+		want, wpan := single(it.pk, it.msg, it.sig, o)
+		fail := func(path string, got bool, pan bool) {
+			r.Violate("sweep/"+path+fmt.Sprintf("/want=%v", want), fmt.Sprintf("family %s, option set %02d: %s says %v (panic=%v), plain verification says %v (panic=%v)", it.c.Fam, fl, path, got, pan, want, wpan), map[string]any{"case": c})
+		}
+		r.Eval(it.c.Key())
+		r.Hist(fmt.Sprintf("sweep/%s", famClass(it.c.Fam, "")))
+		if it.exp != nil {
+			if got, pan := singleExpanded(it.exp, it.msg, it.sig, o); got != want || (pan != wpan) {
+				fail("VerifyExpandedWithOptions", got, pan)
+			}
+		}
+		if len(it.pk) == 32 {
+			cv := cache.NewVerifier(cache.NewLRUCache(1))
+			for pass := 0; pass < 2; pass++ {
+				var got bool
+				pan, _ := mon.Try(func() { got = cv.VerifyWithOptions(it.pk, it.msg, it.sig, o) })
+				// where plain verification documents a panic the cached verifier may panic or refuse; it must not accept
+				if (wpan && !pan && got) || (!wpan && (pan || got != want)) {
+					fail(fmt.Sprintf("cache.VerifyWithOptions(pass %d)", pass), got, pan)
+				}
+			}
+		}
+		if wpan || other == nil {
+			continue
+		}
+		od := optsFor(other.c, 2)
+		for _, expanded := range []bool{false, true} {
+			if expanded && it.exp == nil {
+				continue
+			}
+			var bits []bool
+			var all, only bool
+			pan, _ := mon.Try(func() {
+				bv := ed25519.NewBatchVerifier()
+				if expanded {
+					bv.AddExpandedWithOptions(it.exp, it.msg, it.sig, o)
+				} else {
+					bv.AddWithOptions(it.pk, it.msg, it.sig, o)
+				}
+				bv.AddWithOptions(other.pk, other.msg, other.sig, od)
+				only = bv.VerifyBatchOnly(nil)
+				all, bits = bv.Verify(nil)
+			})
+			r.Eval(nil)
+			cofactorless := o.Verify.CofactorlessVerify
+			switch {
+			case pan:
+				fail(fmt.Sprintf("batch(expanded=%v)/panic", expanded), false, true)
+			case len(bits) != 2 || bits[0] != want || !bits[1] || all != want:
+				fail(fmt.Sprintf("batch(expanded=%v).Verify", expanded), len(bits) == 2 && bits[0], false)
+			case only != (want && !cofactorless):
+				fail(fmt.Sprintf("batch(expanded=%v).VerifyBatchOnly", expanded), only, false)
+			}
+		}
+	}
+}
+
 func runCase(r *mon.Run, c Case) {
 	if c.Kind == "entropy" {
 		entropyCase(r, c)
 		return
 	}
 	switch c.Kind {
+	case "sweep":
+		sweep(r, c)
 	case "history":
 		history(r, c)
 	case "cache":
@@ -514,6 +635,9 @@ func main() {
 	}
 	for i := 0; i < r.Pick(400, 10000); i++ {
 		cases = append(cases, Case{Kind: "cache", Stream: fmt.Sprintf("c09/cache/%d", i)})
+	}
+	for i := range pool {
+		cases = append(cases, Case{Kind: "sweep", Size: i})
 	}
 	_ = c
 	r.Parallel(len(cases), func(i int) { runCase(r, cases[i]) })
